@@ -85,6 +85,7 @@ def concrete(step, field, form):
 def run_history(case):
     sbx = new_sandbox("ed")
     recs = []
+    cwd0 = os.getcwd()
     try:
         tree = case["tree"]
         root = alpha.materialize(tree, os.path.join(sbx, "p"))
@@ -112,9 +113,25 @@ def run_history(case):
             return recs
         with open(out, "rb") as fh:
             raw = fh.read()
+        if case.get("extra_keys"):
+            # as if written by another tool: keys this tool never writes, at the top level and in info
+            from .core import bencode
+            rootn, _, _ = bdecode_strict(raw)
+            d = rootn.py()
+            d[b"x-top"] = {b"b": 1, b"a": [b"x", 2 ** 40]}
+            d[b"nodes"] = [[b"n.example", 6881]]
+            d[b"info"][b"x-info"] = b"kept"
+            d[b"info"][b"aaa-first"] = 7
+            raw = bencode(d)
+            with open(out, "wb") as fh:
+                fh.write(raw)
         recs.append(dict(base, id=rid, op="open", status="ok", clauses=case["open_clauses"], meta=observe(raw)))
         from torrentfile.edit import edit_torrent
         from torrentfile.cli import execute
+        abs_out = out
+        if case.get("rel_paths"):
+            os.chdir(os.path.dirname(os.path.dirname(out)))
+            out = os.path.relpath(out)
         for n, stp in enumerate(case["steps"], 1):
             req, entry = stp["req"], stp["entry"]
             want = {"comment": "", "source": "", "announce": [""], "urllist": [], "httpseeds": []}
@@ -163,4 +180,5 @@ def run_history(case):
                              clauses=case["edit_clauses"], meta=meta))
         return recs
     finally:
+        os.chdir(cwd0)
         rm(sbx)
